@@ -27,6 +27,7 @@ type Config struct {
 	SyncLimit    int
 	SuspendLimit int
 	FastSync     bool         // EnableFastSync for nodes created later (joiners)
+	FastSyncOf   map[int]bool // genesis validators that run with EnableFastSync
 	Badger       map[int]bool // nodes running on a BadgerStore
 	Dir          string       // scratch dir for Badger stores
 	JSONWire     bool         // pass every message through encoding/json like the TCP transport
@@ -79,6 +80,7 @@ type SimNode struct {
 	App       *App
 	Store     hg.Store
 	Trans     *Transport
+	Prox      *inmem.InmemProxy
 	Silent    bool // neither initiates nor answers
 	Down      bool // crashed / not yet started
 	Restarted bool // re-created from its store (pools were lost)
@@ -177,7 +179,7 @@ func NewCluster(cfg Config) *Cluster {
 			c.Nodes[0].KeepDir = true
 			continue
 		}
-		c.startNode(i, c.Genesis, false, false)
+		c.startNode(i, c.Genesis, false, cfg.FastSyncOf[i])
 	}
 	return c
 }
@@ -253,6 +255,7 @@ func (c *Cluster) startNode(i int, currentPeers []*peers.Peer, bootstrap bool, f
 	sn.Store = store
 	sn.Trans = &Transport{c: c, owner: i}
 	prox := inmem.NewInmemProxy(sn.App, conf.Logger())
+	sn.Prox = prox
 	c.active = i
 	c.Nodes[i] = sn
 	c.ByAddr[addr(i)] = sn
@@ -608,7 +611,19 @@ func (c *Cluster) submitInner(i int, tx []byte) error {
 	cp := append([]byte{}, tx...)
 	saved := c.active
 	c.active = i
-	n.Node.VAddTransaction(cp)
+	// the application's side of the in-process proxy: SubmitTx(buf) hands the
+	// transaction to the node's submit channel (what the node's background
+	// routine reads and passes to addTransaction); afterwards the application
+	// reuses its buffer
+	buf := append([]byte{}, tx...)
+	done := make(chan struct{})
+	go func() { n.Prox.SubmitTx(buf); close(done) }()
+	got := <-n.Prox.SubmitCh()
+	<-done
+	n.Node.VAddTransaction(got)
+	for k := range buf {
+		buf[k] ^= 0xa5
+	}
 	c.active = saved
 	n.Submits = append(n.Submits, cp)
 	c.Submitted[string(cp)]++
@@ -754,7 +769,9 @@ func (c *Cluster) Crash(i int) error {
 		if c.Nodes[i] == nil {
 			return fmt.Errorf("no such node")
 		}
-		c.Nodes[i].Down = true
+		if !c.Nodes[i].Down {
+			c.crashNode(i) // the dead process releases its database
+		}
 		return nil
 	})
 }
